@@ -49,6 +49,7 @@ Definition F_TRIMSPACE : N := 6.    (* library model *)
 Definition F_SPLIT : N := 7.        (* library model: Split(s, ", ") *)
 Definition F_RANGE : N := 8.        (* library model: byte positions of `range s` *)
 Definition F_SRCSET : N := 9.
+Definition F_REDDIT : N := 10.      (* oracle row: (data.dist, Some permalinks of data.children); no row = Unmarshal failed *)
 
 Record scase := SC {
   sc_fn : N;
@@ -101,6 +102,17 @@ Definition predict (c : scase) : obs :=
   else if (f =? F_SPLIT)%N then OList (split s (bs ", "))
   else if (f =? F_RANGE)%N then OInts (range_positions (S (List.length s)) s 0)
   else if (f =? F_SRCSET)%N then of_res OList (srcset_urls s)
+  else if (f =? F_REDDIT)%N then
+    (let decoded := match sc_oracle c with
+                    | (dist, Some perms) :: _ => Some (dist, perms)
+                    | _ => None
+                    end in
+     match reddit_permalinks decoded with
+     | Ok (Some l) => OList l
+     | Ok None => OErr
+     | Panic => OPanic
+     | Timeout => OMissing
+     end)
   else OMissing.
 
 Definition sdiff_case (c : scase) : bool := negb (obs_eqb (predict c) (sc_obs c)).
